@@ -337,3 +337,66 @@ union_sparse_first!(c03_union_sparse_first_smaller_k, 4, 5, HllType::Hll4);
 union_sparse_first!(c03_union_sparse_first_same_k, 5, 5, HllType::Hll8);
 union_sparse_first!(c03_union_sparse_first_larger_k, 6, 5, HllType::Hll6);
 //@ endfamily: x
+
+// ---------------------------------------------------------------------------------------------
+// The adopt-or-merge decision for a coupon-mode input, for every pair of lg_k (light: the two helpers are
+// recorders; what they do with the coupons is C02's subject)
+// ---------------------------------------------------------------------------------------------
+
+static mut ADOPTED: u32 = 0;
+static mut MERGED: u32 = 0;
+/// recorder for convert_coupon_mode_to_hll8: an empty Hll8 sketch at the source's lg_k (the real function
+/// returns the source's coupons at the source's lg_k)
+pub(crate) fn rec_convert(_m: &Mode, src_lg_k: u8) -> HllSketch {
+    unsafe {
+        ADOPTED += 1;
+    }
+    HllSketch::new(src_lg_k, HllType::Hll8)
+}
+pub(crate) fn rec_merge_coupons(_g: &mut HllSketch, _m: &Mode) {
+    unsafe {
+        MERGED += 1;
+    }
+}
+
+//@ props: C03 C17
+//@ tier: quick
+//@ timeout: 900
+//@ functions: hll::union::HllUnion::update
+//@ functions: hll::union::HllUnion::update_from_list_or_set
+//@ stubs: convert_coupon_mode_to_hll8, merge_coupons_into_gadget -> recorders; update_from_array -> must-not-reach cut
+//@ replay_stub: hll/union.rs | fn convert_coupon_mode_to_hll8(src_mode: &Mode, src_lg_k: u8) -> HllSketch { | return self::verif_kani_hll_union::rec_convert(src_mode, src_lg_k);
+//@ replay_stub: hll/union.rs | fn merge_coupons_into_gadget(gadget: &mut HllSketch, src_mode: &Mode) { | return self::verif_kani_hll_union::rec_merge_coupons(gadget, src_mode);
+//@ bounds: every lg_max_k and every source lg_k in 4..=21 (both symbolic); a fresh union and a list-mode Hll4 source holding one symbolic coupon
+//@ desc: an empty union adopts a coupon-mode input (copy at the source's lg_k) only when the source's lg_k equals the union's; otherwise the coupons are merged into the gadget - in both cases the union's lg_k stays lg_max_k: a coupon-mode input never down-sizes (or up-sizes) the union
+#[kani::proof]
+#[kani::unwind(10)]
+#[kani::stub(HllUnion::update_from_array, cut_update_from_array)]
+#[kani::stub(convert_coupon_mode_to_hll8, rec_convert)]
+#[kani::stub(merge_coupons_into_gadget, rec_merge_coupons)]
+fn c03_union_coupon_input_keeps_lg_k() {
+    let lg_max: u8 = kani::any();
+    let lg_src: u8 = kani::any();
+    kani::assume(lg_max >= 4 && lg_max <= 21 && lg_src >= 4 && lg_src <= 21);
+    let c: u32 = kani::any();
+    kani::assume(crate::hll::get_value(c) >= 1);
+    // list-mode source built directly (HllSketch::update_with_coupon's mode match is not folded by symbolic
+    // execution and would drag the array updates in)
+    let mut list = crate::hll::list::List::default();
+    list.update(c);
+    let s = HllSketch::from_mode(lg_src, Mode::List { list, hll_type: HllType::Hll4 });
+    let mut u = HllUnion::new(lg_max);
+    unsafe {
+        ADOPTED = 0;
+        MERGED = 0;
+    }
+    u.update(&s);
+    let (adopted, merged) = unsafe { (ADOPTED, MERGED) };
+    assert!(adopted + merged == 1, "a non-empty coupon-mode input was neither adopted nor merged");
+    assert!((adopted == 1) == (lg_src == lg_max), "an empty union adopts a coupon-mode input exactly when the lg_k values are equal");
+    assert!(u.lg_config_k() == lg_max, "a coupon-mode input changed the union's lg_k");
+    kani::cover!(adopted == 1);
+    kani::cover!(merged == 1 && lg_src < lg_max);
+    kani::cover!(merged == 1 && lg_src > lg_max);
+    core::mem::forget((s, u));
+}
